@@ -61,7 +61,9 @@ func Body(sc Scen) func() {
 		sigScope := schema.NewScopeSchema(schema.NewObjectSchema("SigIn", map[string]*schema.PropertySchema{
 			"run": schema.NewPropertySchema(schema.NewStringSchema(nil, nil, nil), nil, true, nil, nil, nil, nil, nil),
 		}))
-		sig := schema.NewCallableSignal[*stepData, map[string]any]("sig", sigScope, nil, func(_ context.Context, d *stepData, v map[string]any) {
+		// the signal object carries an id of its own ("bump-generic"); the step declares it under the name "sig", and that
+		// name is what callers use
+		sig := schema.NewCallableSignal[*stepData, map[string]any]("bump-generic", sigScope, nil, func(_ context.Context, d *stepData, v map[string]any) {
 			run := v["run"].(string)
 			o.sigData[run] = append(o.sigData[run], d)
 		})
